@@ -1,8 +1,13 @@
 import IcyVerif.Model.ArtWriters
+import IcyVerif.Model.ArtAnsiX
 import IcyVerif.Drv.Util
 /-! Line protocol of the art reader / writer models (C15, C04).
 
 `artio write <fmt> <prep> <pic>`            bytes the writer model produces (hex), or `err` / `panic`
+`artio writex ans <opts> <maxlen> <skip> <slots> <pages> <pic>`   the whole ANSI writer (`writeAnsiX`): maxlen = `-` | n
+   (`output_line_length`); skip = `-` | `e` | `y,y,…` (`skip_lines`); slots = `-` | `slot=page,slot=x,…` (the occupied font
+   slots with the first ANSI font page of equal checksum, `x` = none); pages = `-` | rows joined by `/`, a row is `e` or
+   `n*page,page,…` (font page of every cell)
 `artio load <fmt> <sauce> <hex>`            the picture the reader model loads
    fmt   = asc | pcb | an1 | msg | avt | ata | ans
    prep  = 0 none | 1 clear screen | 2 home
@@ -160,7 +165,42 @@ def sauceOf (s : String) : Option (Option Sauce) :=
 
 def nats (ss : List String) : Option (List Nat) := ss.mapM String.toNat?
 
+def optNat (s : String) : Option (Option Nat) := if s == "-" then some none else (s.toNat?).map some
+
+def skipOf (s : String) : Option (Option (List Nat)) :=
+  if s == "-" then some none else if s == "e" then some (some []) else ((s.splitOn ",").mapM String.toNat?).map some
+
+def slotsOf (s : String) : Option (List (Nat × Option Nat)) :=
+  if s == "-" then some [(0, some 0)] else
+  (s.splitOn ",").mapM fun (e : String) =>
+    match e.splitOn "=" with
+    | [a, b] => match String.toNat? a with
+      | some a => if b == "x" then some (a, none) else (String.toNat? b).map fun b => (a, some b)
+      | none => none
+    | _ => none
+
+def pagesOf (s : String) : Option (List (List Nat)) :=
+  if s == "-" then some [] else
+  (s.splitOn "/").mapM fun (r : String) =>
+    if r == "e" then some [] else
+    ((r.splitOn ",").mapM fun (e : String) =>
+      match e.splitOn "*" with
+      | [a] => (String.toNat? a).map fun a => [a]
+      | [n, a] => match String.toNat? n, String.toNat? a with
+        | some n, some a => some (List.replicate n a)
+        | _, _ => none
+      | _ => none).map List.flatten
+
 def handle : List String → String
+  | "writex" :: "ans" :: opts :: maxlen :: skip :: slots :: pages :: rest =>
+    match opts.toNat?, optNat maxlen, skipOf skip, slotsOf slots, pagesOf pages, nats rest with
+    | some opts, some maxlen, some skip, some slots, some pages, some xs =>
+      match pic xs with
+      | some (p, []) =>
+        if pages.any (·.any (ansiFontUploadMin ≤ ·)) then "unmodelled"
+        else showOut (writeAnsiX (ansiOptsOf opts) maxlen skip { slots := slots, pages := pages } p)
+      | _ => "bad-op"
+    | _, _, _, _, _, _ => "bad-op"
   | "write" :: f :: prep :: rest =>
     match fmtOf f, prep.toNat?, nats rest with
     | some f, some prep, some xs =>
